@@ -239,8 +239,9 @@ func (runInfo *runInfoStruct) callExpr() {
 	// This will probably panic for some functions and/or calls that are variadic
 	if !isRunVMFunction {
 		for i, expr := range callExpr.SubExprs {
-			if addrExpr, ok := expr.(*ast.AddrExpr); ok {
-				if identExpr, ok := addrExpr.Expr.(*ast.IdentExpr); ok {
+			// parentheses around the argument or around the variable change nothing
+			if addrExpr, ok := unparen(expr).(*ast.AddrExpr); ok {
+				if identExpr, ok := unparen(addrExpr.Expr).(*ast.IdentExpr); ok {
 					runInfo.rv = args[i].Elem()
 					runInfo.expr = identExpr
 					runInfo.invokeLetExpr()
@@ -251,6 +252,17 @@ func (runInfo *runInfoStruct) callExpr() {
 
 	// processCallReturnValues to get/convert return values to normal rv form
 	runInfo.rv, runInfo.err = processCallReturnValues(rvs, isRunVMFunction, true)
+}
+
+// unparen returns the expression inside any number of parentheses.
+func unparen(expr ast.Expr) ast.Expr {
+	for {
+		paren, ok := expr.(*ast.ParenExpr)
+		if !ok {
+			return expr
+		}
+		expr = paren.SubExpr
+	}
 }
 
 // callVMFunctionDirect calls a VM function that was created with a concrete
